@@ -122,6 +122,14 @@ func (t *threadCtx) baseSources(e ast.Expr, depth int, out map[string]bool) {
 				}
 			}
 		}
+		// the inlined form of the base-path switch: normalizeBase(<loader>.options.RelativeBase), the location
+		// of the document a (transitive) loader works on
+		if c.isSpecFunc(x, "normalizeBase") && len(x.Args) == 1 {
+			if p, ok := c.apath(x.Args[0]); ok && len(p.Steps) >= 2 && lastStep(p) == "RelativeBase" && p.Root != nil && isNamed(derefType(p.Root.Type()), c.Types, t.fam.loader.Obj().Name()) {
+				out["update"] = true
+				return
+			}
+		}
 		out["?"+exprString(x)] = true
 	default:
 		out["?"+exprString(e)] = true
